@@ -176,7 +176,7 @@ func c19Run(c *Ctx) {
 	portsIdx := -1
 	st := ht.Underlying().(*types.Struct)
 	for i := 0; i < st.NumFields(); i++ {
-		if st.Field(i).Name() == "ports" {
+		if st.Field(i).Name() == portTableField(p) {
 			portsIdx = i
 		}
 	}
@@ -470,7 +470,70 @@ func c19Run(c *Ctx) {
 				continue
 			}
 			good, nTrue := true, 0
+			underCmp := func(conds []Cond) bool {
+				for _, dc := range conds {
+					call, pol := condCall(dc)
+					if call == nil || !pol || !isCompareAddr(c.P, call.Call.StaticCallee()) {
+						continue
+					}
+					isKey := func(v ssa.Value) bool {
+						ex, ok := v.(*ssa.Extract)
+						if !ok || ex.Index != 1 {
+							return false
+						}
+						nx, ok := ex.Tuple.(*ssa.Next)
+						if !ok {
+							return false
+						}
+						rg, ok := nx.Iter.(*ssa.Range)
+						if !ok {
+							return false
+						}
+						_, isPorts := isFieldLoadNamed(rg.X, portTableField(c.P))
+						return isPorts
+					}
+					a0, a1 := call.Call.Args[0], call.Call.Args[1]
+					if (isKey(a0) && Unwrap(a1) == ssa.Value(ap)) || (isKey(a1) && Unwrap(a0) == ssa.Value(ap)) {
+						return true
+					}
+				}
+				return false
+			}
 			for _, r := range Returns(hf) {
+				// `found := false; for k := range ports { if compareAddr(k, addr) { found = true } }; return found`
+				if ph, isPhi := RetVals(r)[0].(*ssa.Phi); isPhi {
+					seenPh := map[*ssa.Phi]bool{}
+					var walkPh func(w *ssa.Phi)
+					walkPh = func(w *ssa.Phi) {
+						if seenPh[w] {
+							return
+						}
+						seenPh[w] = true
+						for i, e := range w.Edges {
+							if u, ok := e.(*ssa.Phi); ok {
+								walkPh(u)
+								continue
+							}
+							k, ok := e.(*ssa.Const)
+							if !ok {
+								good = false
+								continue
+							}
+							if k.Value.String() != "true" {
+								continue
+							}
+							nTrue++
+							if !underCmp(DomCondsBlock(w.Block().Preds[i])) {
+								good = false
+							}
+						}
+					}
+					walkPh(ph)
+					if InLoop(r.Block()) {
+						good = false
+					}
+					continue
+				}
 				k, isK := RetVals(r)[0].(*ssa.Const)
 				if !isK {
 					good = false
@@ -502,7 +565,7 @@ func c19Run(c *Ctx) {
 						if !ok {
 							return false
 						}
-						_, isPorts := isFieldLoadNamed(rg.X, "ports")
+						_, isPorts := isFieldLoadNamed(rg.X, portTableField(c.P))
 						return isPorts
 					}
 					a0, a1 := call.Call.Args[0], call.Call.Args[1]
@@ -601,6 +664,18 @@ func c19ServiceList(c *Ctx, run *ssa.Function, tcall *ssa.Call, svcList ssa.Valu
 	var detail []string
 	var nilPreds []*ssa.BasicBlock
 	var entryAllocs []*ssa.Alloc
+	// when the list is built by a helper (resolveServices(table, used, x.Services, port)) the same rules are decided on the
+	// helper's returned value, with its parameters standing for the arguments of that one call
+	var hcall *ssa.Call
+	cur := run
+	argOf := func(v ssa.Value) ssa.Value {
+		if pr, ok := v.(*ssa.Parameter); ok && hcall != nil && pr.Parent() == cur {
+			if i := paramIdx(pr); i >= 0 && i < len(hcall.Call.Args) {
+				return hcall.Call.Args[i]
+			}
+		}
+		return v
+	}
 	var walk func(v ssa.Value)
 	walk = func(v ssa.Value) {
 		if seen[v] {
@@ -611,8 +686,10 @@ func c19ServiceList(c *Ctx, run *ssa.Function, tcall *ssa.Call, svcList ssa.Valu
 		case *ssa.Phi:
 			for i, e := range x.Edges {
 				if IsNilConst(e) {
-					// fresh-per-port: the nil is injected on an edge inside this port string's iteration
-					nilPreds = append(nilPreds, x.Block().Preds[i])
+					// fresh-per-port: the nil is injected on an edge inside this port string's iteration (a helper's own nil is fresh per call)
+					if hcall == nil {
+						nilPreds = append(nilPreds, x.Block().Preds[i])
+					}
 					continue
 				}
 				walk(e)
@@ -626,6 +703,14 @@ func c19ServiceList(c *Ctx, run *ssa.Function, tcall *ssa.Call, svcList ssa.Valu
 			}
 		case *ssa.Call:
 			bi, ok := x.Call.Value.(*ssa.Builtin)
+			if hf := x.Call.StaticCallee(); !ok && hcall == nil && hf != nil && InRepo(hf) && hf.Blocks != nil && len(Returns(hf)) > 0 {
+				hcall, cur = x, hf
+				for _, r := range Returns(hf) {
+					walk(RetVals(r)[0])
+				}
+				hcall, cur = nil, run
+				return
+			}
 			if !ok || bi.Name() != "append" || len(x.Call.Args) != 2 {
 				okAll = false
 				detail = append(detail, "service list built by something other than append: "+Render(x))
@@ -662,15 +747,27 @@ func c19ServiceList(c *Ctx, run *ssa.Function, tcall *ssa.Call, svcList ssa.Valu
 				detail = append(detail, "service appended without the lookup having succeeded (unknown names would add nil services)")
 			}
 			// the looked-up name ranges over this entry's Services; the map is the locally built service table (a MakeMap in Run)
-			if _, isMake := lk.X.(*ssa.MakeMap); !isMake {
+			if _, isMake := argOf(lk.X).(*ssa.MakeMap); !isMake {
 				okAll = false
 				detail = append(detail, "lookup is not in the service table built in Run: "+Render(lk.X))
 			}
 			// the entry struct the names come from
 			{
 				var w ssa.Value = lk.Index
-				for d := 0; d < 6 && w != nil; d++ {
+				for d := 0; d < 8 && w != nil; d++ {
 					switch y := w.(type) {
+					case *ssa.Parameter:
+						if nw := argOf(y); nw != ssa.Value(y) {
+							w = nw
+						} else {
+							w = nil
+						}
+					case *ssa.Extract:
+						w = y.Tuple
+					case *ssa.Next:
+						w = y.Iter
+					case *ssa.Range:
+						w = y.X
 					case *ssa.UnOp:
 						w = y.X
 					case *ssa.IndexAddr:
@@ -685,13 +782,22 @@ func c19ServiceList(c *Ctx, run *ssa.Function, tcall *ssa.Call, svcList ssa.Valu
 					}
 				}
 			}
-			if !strings.Contains(Render(lk.Index), ".Services[") {
+			namesOK := strings.Contains(Render(lk.Index), ".Services[")
+			if hcall != nil {
+				// inside the helper the names come from a slice parameter: what the call passes for it
+				for _, a := range hcall.Call.Args {
+					if isSliceOfString(a.Type()) && strings.HasSuffix(Render(a), ".Services") && strings.Contains(Render(lk.Index), "p") {
+						namesOK = true
+					}
+				}
+			}
+			if !namesOK {
 				okAll = false
 				detail = append(detail, "looked-up name does not range over this entry's `services`: "+Render(lk.Index))
 			}
 			// unknown name continues: from the !ok edge the append must still be reachable without passing ToAddr again
 			if blk := lk.Block(); true {
-				for _, b := range run.Blocks {
+				for _, b := range cur.Blocks {
 					if len(b.Instrs) == 0 {
 						continue
 					}
@@ -709,7 +815,11 @@ func c19ServiceList(c *Ctx, run *ssa.Function, tcall *ssa.Call, svcList ssa.Valu
 						missIdx = 0
 					}
 					start := b.Succs[missIdx]
-					reach := ReachBlocks([]*ssa.BasicBlock{start}, nil, map[*ssa.BasicBlock]bool{tcall.Block(): true})
+					blocked := map[*ssa.BasicBlock]bool{tcall.Block(): true}
+					if hcall != nil {
+						blocked = nil
+					}
+					reach := ReachBlocks([]*ssa.BasicBlock{start}, nil, blocked)
 					if !reach[x.Block()] {
 						okAll = false
 						detail = append(detail, "an unknown service name stops the scan of the remaining names (break/return instead of continue)")
@@ -781,4 +891,9 @@ func isConvOfExtract(v ssa.Value, tuple ssa.Value, idx int) bool {
 		v = cv.X
 	}
 	return isExtract(v, tuple, idx)
+}
+
+func isSliceOfString(t types.Type) bool {
+	sl, ok := t.Underlying().(*types.Slice)
+	return ok && types.Identical(sl.Elem().Underlying(), types.Typ[types.String])
 }
